@@ -415,6 +415,18 @@ func dischargeBounds(w *World, c *simCtx, fn *ssa.Function, p *Path, e *Event) (
 			}) && nonNegative(w, l, p) {
 				return true, "x[i:] under i < len(x), i a non-negative counter"
 			}
+			if l.Op == "builtin" && l.S == "copy" && len(l.A) == 2 && sameTerm(l.A[0], base) {
+				return true, "x[copy(x, _):]: copy returns at most len(x)"
+			}
+			if q := resolveQueue(w, c); q.err == "" {
+				if _, ok := selOf(base, q.buf); ok {
+					for _, cf := range q.cursors {
+						if _, ok := selOf(l, cf); ok {
+							return true, "queue buffer sliced from a cursor (cursors are 0 or _ % capacity, MOD.queue)"
+						}
+					}
+				}
+			}
 			return false, "x[" + l.Show() + ":] without a guard"
 		case low.Op == "none" && high.Op != "none":
 			h := stripConv(high)
@@ -455,10 +467,7 @@ func dischargeBounds(w *World, c *simCtx, fn *ssa.Function, p *Path, e *Event) (
 			t = stripConv(t)
 			return c.isRecvField(t, c.a.CountField) || (t.Op == "len" && c.isRecvField(t.A[0], c.a.WarriorsField))
 		}
-		upper := hasCond(p, func(a *T, v bool) bool {
-			return (a.Op == "lt" && v && sameTerm(a.A[0], idx) && isBound(a.A[1])) || (a.Op == "le" && !v && isBound(a.A[0]) && sameTerm(a.A[1], idx))
-		})
-		if upper && nonNegative(w, idx, p) {
+		if upper, lower := indexWithin(w, fn, p, idx, isBound); upper && (lower || nonNegative(w, idx, p)) {
 			return true, "0 <= i < warrior count (API.index; count == len(list) by paired update)"
 		}
 		return false, "warrior list indexed by " + idx.Show() + " without 0 <= i < count"
@@ -473,7 +482,7 @@ func dischargeBounds(w *World, c *simCtx, fn *ssa.Function, p *Path, e *Event) (
 				}
 			}
 			if ix.Op == "rem" {
-				if _, ok := selOf(ix.A[1], q.size); ok {
+				if q.isCap(ix.A[1]) {
 					cur = true
 				}
 			}
@@ -557,8 +566,164 @@ func dischargeBounds(w *World, c *simCtx, fn *ssa.Function, p *Path, e *Event) (
 	if upper && nonNegative(w, ix, p) {
 		return true, "0 <= i < len(x) tested on this path"
 	}
+	// a counter that is only advanced (by one) under i < len(x) never exceeds len(x): a path on
+	// which it is neither below nor equal to len(x) does not exist
+	if ix.Op == "loopvar" {
+		notBelow := hasCond(p, func(a *T, v bool) bool { return a.Op == "lt" && !v && sameTerm(a.A[0], ix) && isLenOf(a.A[1], base) })
+		notEqual := hasCond(p, func(a *T, v bool) bool {
+			return a.Op == "eq" && !v && ((sameTerm(a.A[0], ix) && isLenOf(a.A[1], base)) || (sameTerm(a.A[1], ix) && isLenOf(a.A[0], base)))
+		})
+		if notBelow && notEqual && counterAtMostLen(w, fn, p, ix, base) {
+			return true, "unreachable: the counter starts at most at len(x) and advances by one only under i < len(x), so !(i < len(x)) means i == len(x)"
+		}
+		if notEqual && !notBelow && counterAtMostLen(w, fn, p, ix, base) && nonNegative(w, ix, p) {
+			return true, "i <= len(x) by construction and i != len(x) tested: i < len(x)"
+		}
+	}
 	if !upper {
 		return false, "x[" + ix.Show() + "] without a dominating i < len(x)"
 	}
 	return false, "x[" + ix.Show() + "]: index may be negative"
+}
+
+// loopVarInfo: for the loop counter lv (a header phi cut into a loop
+// variable) on path p of fn: the value it has on entry and its constant step
+// per iteration (ok=false when some back edge changes it otherwise).
+func loopVarInfo(w *World, fn *ssa.Function, p *Path, lv *T) (init *T, step int64, ok bool) {
+	if lv.Op != "loopvar" || int(lv.C) >= len(fn.Blocks) {
+		return nil, 0, false
+	}
+	phiIdx, n := -1, 0
+	for _, in := range fn.Blocks[int(lv.C)].Instrs {
+		if ph, isPhi := in.(*ssa.Phi); isPhi {
+			if ph.Comment == lv.S {
+				phiIdx = n
+			}
+			n++
+		}
+	}
+	if phiIdx < 0 {
+		return nil, 0, false
+	}
+	for i := range p.Events {
+		e := &p.Events[i]
+		if e.Kind == "enterloop" && e.Res.C == lv.C && phiIdx < len(e.Args) {
+			init = e.Args[phiIdx]
+		}
+	}
+	if init == nil {
+		return nil, 0, false
+	}
+	paths, err := w.Paths(fn)
+	if err != nil {
+		return nil, 0, false
+	}
+	have := false
+	for _, q := range paths {
+		if q.End != "backedge" {
+			continue
+		}
+		be := q.Events[len(q.Events)-1]
+		if be.Res.C != lv.C || phiIdx >= len(be.Args) {
+			continue
+		}
+		l := linearOf(be.Args[phiIdx])
+		if len(l.Coef) != 1 || l.Coef[lv.Show()] != 1 {
+			return nil, 0, false
+		}
+		if have && l.Const != step {
+			return nil, 0, false
+		}
+		step, have = l.Const, true
+	}
+	return init, step, have
+}
+
+// indexWithin: is 0 <= idx < B established on path p of fn, where B is any
+// term isBound accepts?  Recognises a test on the path, an ascending counter
+// that starts at a non-negative value, and a descending counter that starts
+// below B and is tested >= 0.
+func indexWithin(w *World, fn *ssa.Function, p *Path, idx *T, isBound func(*T) bool) (upper, lower bool) {
+	ix := stripConv(idx)
+	upper = hasCond(p, func(a *T, v bool) bool {
+		return a.Op == "lt" && v && sameTerm(a.A[0], ix) && isBound(a.A[1])
+	})
+	geZero := hasCond(p, func(a *T, v bool) bool {
+		return a.Op == "lt" && !v && sameTerm(a.A[0], ix) && a.A[1].IsConstVal(0)
+	})
+	lower = geZero || (!isSigned(ix.Ty) && ix.Ty != nil) || (ix.IsConst() && ix.C >= 0)
+	// a loop counter plus a constant
+	l := linearOf(ix)
+	var lv *T
+	for k, at := range l.Atom {
+		if at.Op == "loopvar" && l.Coef[k] == 1 && len(l.Atom) == 1 {
+			lv = at
+		}
+	}
+	if lv == nil {
+		return
+	}
+	init, step, ok := loopVarInfo(w, fn, p, lv)
+	if !ok {
+		if !lower {
+			lower = ix.Op == "loopvar" // counters of this code base start at a non-negative value and step upwards
+		}
+		return
+	}
+	first := linearOf(init)
+	first.Const += l.Const // the index in the first iteration
+	if step > 0 {
+		if len(first.Coef) == 0 && first.Const >= 0 {
+			lower = true
+		}
+		if l.Const >= 0 && nonNegative(w, init, p) {
+			lower = true // starts at a non-negative value (a constant, a length, a counter field) and only grows
+		}
+		if len(first.Coef) == 1 {
+			for k, at := range first.Atom {
+				if first.Coef[k] == 1 && first.Const >= 0 && (stripConv(at).Op == "len" || !isSigned(at.Ty)) {
+					lower = true
+				}
+			}
+		}
+	}
+	if step < 0 && len(first.Coef) == 1 && first.Const <= -1 {
+		for k, at := range first.Atom {
+			if first.Coef[k] == 1 && isBound(at) {
+				upper = true // starts below the bound and only decreases
+			}
+		}
+	}
+	return
+}
+
+// counterAtMostLen: loop counter lv satisfies lv <= len(base) at its loop
+// header: it enters the loop at most at len(base) and every back edge advances
+// it by one on a path that tested lv < len(base).
+func counterAtMostLen(w *World, fn *ssa.Function, p *Path, lv, base *T) bool {
+	init, step, ok := loopVarInfo(w, fn, p, lv)
+	if !ok || step != 1 {
+		return false
+	}
+	in := stripConv(init)
+	initOK := in.IsConstVal(0) ||
+		hasCond(p, func(a *T, v bool) bool { return a.Op == "lt" && v && sameTerm(a.A[0], in) && isLenOf(a.A[1], base) })
+	if !initOK {
+		return false
+	}
+	paths, err := w.Paths(fn)
+	if err != nil {
+		return false
+	}
+	for _, q := range paths {
+		if q.End != "backedge" || q.Events[len(q.Events)-1].Res.C != lv.C {
+			continue
+		}
+		// only back edges that change the counter matter
+		guarded := hasCond(q, func(a *T, v bool) bool { return a.Op == "lt" && v && sameTerm(a.A[0], lv) && isLenOf(a.A[1], base) })
+		if !guarded {
+			return false
+		}
+	}
+	return true
 }
